@@ -140,6 +140,49 @@ func c08image(t *tape.Tape, st *Stats) *Violation {
 		t.Intn(1)
 		t.Intn(3)
 	}
+	// a JPEG that defers its number of lines: height 0 in the frame header, the
+	// value in a DNL segment behind the first scan (legal per T.81 B.2.5, rare in
+	// practice). What a loader makes of it is its business - C08 only demands the
+	// same outcome under every delivery. One run in forty.
+	dnl, dnlArg := t.Intn(40) == 0, t.Draw(1<<32)
+	if dnl && in.Truth != nil && in.Truth.Format == "JPEG" {
+		hOff, sosEnd := -1, -1
+		for _, f := range in.Fields {
+			switch f.Name {
+			case "SOF.height":
+				hOff = f.Off
+			case "SOS.length":
+				sosEnd = f.Off + int(refmodel.GetBE(in.Data, f.Off, 2))
+			}
+		}
+		if hOff >= 0 && sosEnd > 0 && sosEnd <= len(in.Data) {
+			r := tape.NewRand(dnlArg)
+			d := append([]byte{}, in.Data[:sosEnd]...)
+			d[hOff], d[hOff+1] = 0, 0
+			scan := func(n int) {
+				for i := 0; i < n; i++ {
+					b := byte(r.Intn(256))
+					d = append(d, b)
+					if b == 0xFF {
+						d = append(d, 0x00) // byte stuffing
+					}
+				}
+			}
+			scan(r.Intn(40))
+			if r.Intn(2) == 0 {
+				d = append(d, 0xFF, 0xD0+byte(r.Intn(8))) // a restart marker inside the scan
+				scan(r.Intn(40))
+			}
+			lines := 1 + r.Intn(65535)
+			d = append(d, 0xFF, 0xDC, 0x00, 0x04, byte(lines>>8), byte(lines))
+			scan(r.Intn(3000))
+			d = append(d, 0xFF, 0xD9)
+			in.Data, in.Fields, in.Truth = d, refmodel.WalkFields(d), nil
+			in.Desc += fmt.Sprintf(" [number of lines deferred to a DNL segment: %d]", lines)
+			in.Class = "jpeg-dnl"
+		}
+	}
+	st.Probe("jpeg_with_dnl_deferred_height", in.Class == "jpeg-dnl")
 	cfg := DrawDelivery(t, in.Fields, true)
 	ref := SafeLoad(loader, simio.NewSource(simio.Bytes(in.Data), simio.Config{TruncAt: -1, ErrAt: -1}))
 	src := simio.NewSource(simio.Bytes(in.Data), cfg)
